@@ -410,6 +410,8 @@ def run_text(case):
     """quiet/verbose/varnames on DIMACS output of cnfgen; kthlist2pebbling; cnfshuffle -q; dimacs sub-command"""
     from cnfgen.formula.cnf import CNF
     mode = case['mode']
+    # 'process': the tool runs as a real process, its standard input is a pipe (cannot be rewound)
+    RUN = cli.run_subprocess if case.get('process') else cli.run_main
     with catalog.Ctx() as ctx:
         if mode == 'options':
             f = catalog.FAMILIES[case['fam']]
@@ -431,7 +433,7 @@ def run_text(case):
             if targs:
                 Flib = apply_t(Flib, targs, None)
             if case['via'] == 'stdin':
-                r = cli.run_main('kthlist2pebbling', opts + targs, stdin_text=text)
+                r = RUN('kthlist2pebbling', opts + targs, stdin_text=text)
             else:
                 r = cli.run_main('kthlist2pebbling', opts + ['-i', path] + targs)
             r2 = cli.run_main('cnfgen', opts + ['peb', 'kthlist', path] + (['-T'] + targs if targs else []))
@@ -454,7 +456,7 @@ def run_text(case):
                 Flib.add_clause(c)
             opts = case['opts']
             if case['via'] == 'stdin':
-                r = cli.run_main('cnfgen', opts + ['dimacs'], stdin_text=open(path).read())
+                r = RUN('cnfgen', opts + ['dimacs'], stdin_text=open(path).read())
             else:
                 r = cli.run_main('cnfgen', opts + ['dimacs', path])
             what = "cnfgen {} dimacs".format(' '.join(opts))
@@ -466,7 +468,7 @@ def run_text(case):
             for c in F0['clauses']:
                 Flib.add_clause(c)
             opts = case['opts']
-            r = cli.run_main('cnfshuffle', ['-p', '-v', '-c'] + opts, stdin_text=text)
+            r = RUN('cnfshuffle', ['-p', '-v', '-c'] + opts, stdin_text=text)
             what = "cnfshuffle -p -v -c {}".format(' '.join(opts))
         if r.exc is not None or r.code != 0:
             raise Violation("{}: fails (exit {}, {!r}, stderr {!r})".format(what, r.code, r.exc, r.err[:300]))
@@ -489,7 +491,18 @@ def run_text(case):
             labs = list(Flib.all_variable_labels())
             if vn != {i + 1: l for i, l in enumerate(labs)}:
                 raise Violation("{}: 'c varname' lines {} do not list the names {}".format(what, sorted(vn.items())[:3], labs[:3]))
-    return Outcome(labels=[mode] + opts + ([case['via']] if 'via' in case else []), nontrivial=len(clauses) >= 1)
+    return Outcome(labels=[mode] + opts + ([case['via']] if 'via' in case else []) + (['real-process'] if case.get('process') else []), nontrivial=len(clauses) >= 1)
+
+
+def enum_text(tier):
+    """the stdin-reading modes as real processes (stdin is a pipe)"""
+    D = {'n': 4, 'edges': [[1, 3], [2, 3], [3, 4]], 'as': 'cnfgen'}
+    F = {'n': 3, 'clauses': [[1, -2], [2, 3], [-1, -3, 2]]}
+    for opts in ([], ['-q']):
+        for t in ([], ['xor', '2']):
+            yield {'mode': 'k2p', 'D': D, 'opts': opts, 't': t, 'via': 'stdin', 'process': True}
+        yield {'mode': 'dimacs', 'F': F, 'opts': opts, 'via': 'stdin', 'process': True}
+        yield {'mode': 'cnfshuffle', 'F': F, 'opts': opts, 'process': True}
 
 
 @st.composite
@@ -526,8 +539,8 @@ SUBCHECKS = [
     SubCheck('drawn', run_drawn, strategy=strat_drawn, quick=300, thorough=12000,
              rule="php M N D, tseitin N d, tseitin random|randomodd|randomeven G, op N d, subsetcard N d, stone s D --sparse d; oracle: the graph / charges recovered from names and clauses have the documented shape (regularity, sizes, parity) and the formula equals the library formula on them",
              required_labels=['php', 'tseitinNd', 'tseitin-random', 'opNd', 'subsetcardNd', 'stone']),
-    SubCheck('text', run_text, strategy=strat_text, quick=500, thorough=20000,
-             rule="cnfgen -q/-v/--varnames on DIMACS output, 'cnfgen dimacs' (file and stdin), kthlist2pebbling (stdin and -i, with a transformation) versus 'cnfgen peb', cnfshuffle with all permutations off; oracle: the printed clauses are the library formula, -q prints no comment line, verbose prints the header, --varnames lists the names",
+    SubCheck('text', run_text, strategy=strat_text, enumerate_cases=enum_text, quick=500, thorough=20000,
+             rule="cnfgen -q/-v/--varnames on DIMACS output, 'cnfgen dimacs' (file and stdin), kthlist2pebbling (stdin and -i, with a transformation) versus 'cnfgen peb', cnfshuffle with all permutations off; the stdin-reading ones also as real processes fed through a pipe (enumerated); oracle: the printed clauses are the library formula, -q prints no comment line, verbose prints the header, --varnames lists the names",
              required_labels=['options', 'k2p', 'dimacs', 'cnfshuffle', '-q', '--varnames', 'stdin', 'file']),
 ]
 
